@@ -55,6 +55,9 @@ func (rn *runner) runDupPhase() {
 			sel := sel
 			r.Eval(1)
 			cnt.add("dup_cases", 1)
+			if v.wkt {
+				cnt.add("dup_cases_wkt", 1)
+			}
 			ws, err := bufx.Workspace(rn.ctx, bufx.MemBucket(files), sel.SubDir, sel.Paths, sel.Excludes, bufx.NopProviders)
 			var obs []obsFile
 			if err == nil {
